@@ -162,7 +162,7 @@ func runC09(c *Ctx) error {
 	for i := range progs {
 		progs[i] = c09AddDecorators(c.Rng, progs[i])
 	}
-	nr := c.Pick(200, 3000)
+	nr := c.Pick(200, 10000)
 	for i := 0; i < nr; i++ {
 		progs = append(progs, c09AddDecorators(c.Rng, c09Random(c.Rng, 20)))
 	}
